@@ -206,7 +206,7 @@ def enc_sequence(E, f):
     for b, t in calls:
         ty = t["arg_tys"][0] if t.get("arg_tys") else "?"
         src = backward_fields(E, fa, t["args"][0])
-        seq.append({"wire": norm_wire(ty), "raw": ty, "fields": sorted(src), "at": fa.loc(b)})
+        seq.append({"wire": norm_wire(ty), "raw": ty, "fields": sorted(src), "at": fa.loc(b), "b": b})
     return seq, chain, fa
 
 
@@ -303,6 +303,19 @@ def codec_rule(ctx, prop):
                 [(d["wire"], d["fields"]) for d in ds]))
             if not echain or not dchain:
                 raise EngineError("CODEC: %s has a branching codec body (unsupported shape)" % adt)
+            # every value is written / read on every successful path: an early `return Ok(..)`
+            # between two codec calls leaves the stream out of phase with the other side
+            for side, sq, sfa in (("encoder", es, efa), ("decoder", ds, dfa)):
+                ok_b, err_b, _ = result_exits(sfa)
+                skipped = [k for k, e in enumerate(sq) if "b" in e and
+                           not all(sfa.dominates(e["b"], o) for o in ok_b)]
+                ctx.ob("CODEC", "%s|%s|%s-all-paths" % (cfg, adt, side), not skipped, locs,
+                       "%s: every successful path of the %s passes all %d codec calls"
+                       % (adt.split("::")[-1], side, len(sq)) if not skipped else
+                       "%s: the %s can return Ok without %s value(s) #%s - the other side still "
+                       "writes/reads them, so the rest of the image is decoded out of phase"
+                       % (adt.split("::")[-1], side, "reading" if side == "decoder" else "writing",
+                          ",".join(map(str, skipped))))
             ok = len(es) == len(ds)
             ctx.ob("CODEC", "%s|%s|length" % (cfg, adt), ok, locs,
                    "%s: encoder writes %d values, decoder reads %d" % (adt.split("::")[-1],
